@@ -30,6 +30,7 @@ type View struct {
 	ReadErr       error  // error that ended reading (io.EOF for a clean close)
 	ReadAfterErr  []byte // bytes delivered by Read calls made AFTER the first error (must stay empty)
 	ReadRecovered bool   // a Read call after the first error returned a nil error
+	TemporaryErrs int    // temporary read errors that were retried (App.RetryTemporary)
 	WriteErrs     []error
 	Panic         interface{}
 	Stack         string
@@ -50,6 +51,8 @@ type App struct {
 	NoClose bool
 	// CloseWriteAfterWrites: call CloseWrite (send close_notify, keep reading) after the writes
 	CloseWriteAfterWrites bool
+	// RetryTemporary: a Read that fails with a temporary net.Error (a timeout) is repeated
+	RetryTemporary bool
 	// Wrap, when set, is put between the library endpoint and the wire (transport fault injection)
 	Wrap func(net.Conn) net.Conn
 }
@@ -82,6 +85,10 @@ func runApp(c conn, v *View, a App) {
 	for a.Expect == 0 || len(v.Read) < a.Expect {
 		n, err := c.Read(buf)
 		v.Read = append(v.Read, buf[:n]...)
+		if ne, ok := err.(net.Error); ok && a.RetryTemporary && ne.Temporary() && v.TemporaryErrs < 1000 {
+			v.TemporaryErrs++
+			continue
+		}
 		if err != nil {
 			v.ReadErr = err
 			// the error must be sticky: two more Read calls, which must not deliver anything
